@@ -3,7 +3,7 @@
 From V.lib Require Import Base.
 From V.c14 Require Import C14Spec C14Model C14WordProofs C14ScanProofs C14ConvProofs C14WalkProofs C14StreamProofs.
 From V.c14 Require Import C14HevcSpec C14HevcModel C14HevcPackProofs C14HevcProofs C14AvcModel C14AvcProofs.
-From V.c14 Require Import C14RecogModel C14RecogProofs.
+From V.c14 Require Import C14RecogModel C14RecogProofs C14Scan32Model C14Scan32Proofs.
 
 (* the word bit-trick of hasZeroByte is exactly "some byte of the word is zero", for every 8-byte
    word, whichever byte order the load uses *)
@@ -322,6 +322,13 @@ Theorem C14_stream_bytes : forall d : list N, wf_stream d = true ->
 Proof. exact stream_bytes. Qed.
 Print Assumptions C14_stream_bytes.
 
+(* a stream shorter than 4 GiB needs no hypothesis on the unit sizes: every unit fits its 4-byte length field *)
+Theorem C14_stream_bytes_short : forall d : list N, wf_stream d = true -> (Zlen d < 4294967296)%Z ->
+  to_nalu_sample d = Ok (sample (map snd (unstream d))) /\
+  (do s <- to_nalu_sample d; to_byte_stream s) = Ok (stream4 (map snd (unstream d))).
+Proof. exact stream_bytes_short. Qed.
+Print Assumptions C14_stream_bytes_short.
+
 (* accepted: a mixed 3/4-byte stream, and 67 00 | 00 00 01 read as the unit 67 behind a 4-byte start code (one
    zero byte in front of 00 00 01 always belongs to the start code); rejected: a byte in front of the first
    start code, a unit that would end in 00, an empty unit between two start codes, no start code at all *)
@@ -390,4 +397,34 @@ Example C14_sample_bytes_ex :
   wf_sample [0;0;0;3;64;1]%N = false /\
   wf_sample [0;0;0;0; 0;0;0;1;9]%N = false /\
   wf_sample [0;0;0;1;9; 1;2;3]%N = false /\ wf_sample [] = false.
+Proof. vm_compute. repeat split; reflexivity. Qed.
+
+(* ------------------------------------------------------------------ the 32-bit compilation of the scanner *)
+(* avc/annexb.go sizes everything by uintSize = unsafe.Sizeof(uint(0)): on a 32-bit platform the word loop loads
+   4 bytes, the magic constants are 0x01010101 / 0x80808080, two odd offsets are probed per word and the tail loop
+   starts at len - len%4 - 4.  C14Scan32Model.v transcribes that compilation (checks/c14.py runs it against a
+   GOARCH=386 build of the real code).  The word trick is right for 4-byte words (either byte order), the scanner
+   returns the byte-by-byte scan on EVERY byte string, so both platforms find the same start codes and convert
+   alike: every C14 theorem about streams holds for the 32-bit compilation as well. *)
+Theorem C14_has_zero_byte32 : forall bs : list N,
+  length bs = 4%nat -> bytes_ok bs = true ->
+  has_zero_byte32 (word_le bs) = existsb is0 bs /\ has_zero_byte32 (word_be bs) = existsb is0 bs.
+Proof. exact (fun bs Hl Hok => conj (has_zero_byte32_le bs Hl Hok) (has_zero_byte32_be bs Hl Hok)). Qed.
+Print Assumptions C14_has_zero_byte32.
+
+Theorem C14_scanner32_eq_naive : forall l : list N,
+  bytes_ok l = true ->
+  get_start_code_positions32 l = Ok (naive_scan l, min_sc_len (naive_scan l)) /\
+  get_start_code_positions32 l = get_start_code_positions l /\
+  to_nalu_sample32 l = to_nalu_sample l.
+Proof. exact (fun l Hok => conj (scanner32_eq_naive l Hok) (platforms_agree l Hok)). Qed.
+Print Assumptions C14_scanner32_eq_naive.
+
+(* a 3-byte start code straddling the first 4-byte word boundary (bytes 2,3,4), one straddling the word/tail
+   hand-over and a 4-byte one in the tail; the zero-byte test on 4-byte words *)
+Example C14_scanner32_ex :
+  let l := [9;9;0;0;1;7;7;7;7;7;0;0;1;7;7;0;0;0;1;5]%N in
+  bytes_ok l = true /\ get_start_code_positions32 l = Ok ([(3, 5); (3, 13); (4, 19)]%Z, 3%Z) /\
+  naive_scan l = [(3, 5); (3, 13); (4, 19)]%Z /\
+  has_zero_byte32 (word_le [1;128;0;255]%N) = true /\ has_zero_byte32 (word_le [1;128;255;1]%N) = false.
 Proof. vm_compute. repeat split; reflexivity. Qed.
